@@ -509,6 +509,20 @@ func registerEnvIntrinsics() {
 		in.emit("tls.listener", fmt.Sprintf("cfg=%p", args[1]))
 		return in.ifaceOf(l), true
 	}
+	I["(*crypto/tls.Config).Clone"] = func(in *Interp, fr *frame, args []Value) (Value, bool) {
+		p, _ := args[0].(*Value)
+		if p == nil {
+			return (*Value)(nil), true
+		}
+		cell := new(Value)
+		*cell = copyVal(*p)
+		return cell, true
+	}
+	I["crypto/x509.NewCertPool"] = func(in *Interp, fr *frame, args []Value) (Value, bool) {
+		cell := new(Value)
+		*cell = in.zero(in.namedType("crypto/x509", "CertPool"))
+		return cell, true
+	}
 	I["crypto/tls.Server"] = func(in *Interp, fr *frame, args []Value) (Value, bool) {
 		return in.newTLSConn(args[0], args[1]), true
 	}
